@@ -64,6 +64,19 @@ def r1_field_init(run, records, exceptions, rule='R1'):
             if fns[0].d.get('defaulted') and c['kind'] in ('copy', 'move'):
                 continue  # defaulted out of line: memberwise from an initialised object
             bodies.append((c, fns[0]))
+        inheriting = rec.get('inherits_ctors') or any(c.get('inheriting') for c in rec['ctors'])
+        if inheriting:
+            # `using Base::Base;`: objects are built by the base's constructors, which cannot initialise this class's own
+            # fields - those keep only their default member initialisers
+            for f in need:
+                key = rec['norm'] + '::' + f['name']
+                if key in exceptions:
+                    used_exc.add(key)
+                    run.ok(rule, 'field-init', key, '%s:%d' % (rec['file'], f['line']), 'tabled: ' + exceptions[key], nontrivial=False)
+                else:
+                    run.violation(rule, 'field-init', key, '%s:%d' % (rec['file'], f['line']),
+                                  '%s inherits its constructors (using-declaration) and field %s has no default member initialiser: it is indeterminate in every object, so behaviour depends on what the allocator left in memory' % (rec['norm'], f['name']))
+            continue
         if not bodies:
             # no user constructor: default-initialisation leaves scalars indeterminate
             # unless every construction site value-/aggregate-initialises
